@@ -1,0 +1,31 @@
+//go:build verif
+
+package experiment
+
+import (
+	"k8s.io/apimachinery/pkg/runtime"
+	"k8s.io/client-go/tools/record"
+	"sigs.k8s.io/controller-runtime/pkg/client"
+
+	experimentsv1beta1 "github.com/kubeflow/katib/pkg/apis/controller/experiments/v1beta1"
+	suggestionsv1beta1 "github.com/kubeflow/katib/pkg/apis/controller/suggestions/v1beta1"
+	trialsv1beta1 "github.com/kubeflow/katib/pkg/apis/controller/trials/v1beta1"
+	"github.com/kubeflow/katib/pkg/controller.v1beta1/experiment/manifest"
+	"github.com/kubeflow/katib/pkg/controller.v1beta1/experiment/suggestion"
+	"github.com/kubeflow/katib/pkg/controller.v1beta1/experiment/util"
+)
+
+// NewVerifReconciler builds a ReconcileExperiment around an injected client.
+func NewVerifReconciler(c client.Client, scheme *runtime.Scheme, rec record.EventRecorder, coll *util.ExperimentsCollector) *ReconcileExperiment {
+	r := &ReconcileExperiment{Client: c, scheme: scheme, recorder: rec}
+	r.Suggestion = suggestion.New(scheme, c)
+	r.Generator = manifest.New(c)
+	r.updateStatusHandler = r.updateStatus
+	r.collector = coll
+	return r
+}
+
+// VerifGetTrialInstance exposes getTrialInstance.
+func (r *ReconcileExperiment) VerifGetTrialInstance(expInstance *experimentsv1beta1.Experiment, suggestion *suggestionsv1beta1.TrialAssignment) (*trialsv1beta1.Trial, error) {
+	return r.getTrialInstance(expInstance, suggestion)
+}
